@@ -181,9 +181,11 @@ class Ctx:
         n_examples = 0
         declared = set()
         if props_file.exists():
-            src = strip_lean_comments(props_file.read_text())
-            n_examples = len(re.findall(r"^\s*example\b", src, re.M))
-            declared = set(re.findall(r"^\s*(?:private\s+|protected\s+)?theorem\s+([^\s:({\[]+)", src, re.M))
+            # property theorems live in Props/Cxx.lean and in Props files it imports (e.g. C17Runner)
+            for pf in [f for f in self.import_closure() if f.parent.name == "Props"]:
+                src = strip_lean_comments(pf.read_text())
+                n_examples += len(re.findall(r"^\s*example\b", src, re.M))
+                declared |= set(re.findall(r"^\s*(?:private\s+|protected\s+)?theorem\s+([^\s:({\[]+)", src, re.M))
         for t in thms:
             if t.split(".")[-1] not in declared:
                 problems.append(f"required theorem {t} is not declared in Props/{self.prop}.lean")
